@@ -71,12 +71,9 @@ fn int_of(bits: &[u8], big: bool) -> i128 {
     let u = uint_of(bits, big);
     if w == 0 {
         0
-    } else if w == 128 {
-        u as i128
-    } else if (u >> (w - 1)) & 1 == 1 {
-        (u as i128) - (1i128 << w)
     } else {
-        u as i128
+        // sign extension from bit w-1
+        ((u << (128 - w)) as i128) >> (128 - w)
     }
 }
 
@@ -516,7 +513,12 @@ fn check_cursor(xs: &mut Xstate, m: &mut Model, op: &Op) -> Result<(), (String, 
 
 fn make_inputs(quick: bool) -> Vec<(&'static str, Bitstr)> {
     let parent = Bitstr::from(vec![0xA5u8, 0x41, 0x00, 0x7E, 0xC3]);
+    // wide inputs (names start with "wide"): explored without nested inputs, so that every
+    // cursor position x byte order x read width up to 128 bits at every alignment is reached
+    let wide_parent = Bitstr::from((0..22u32).map(|i| (i.wrapping_mul(0x9d).wrapping_add(0x5b) ^ (i << 3)) as u8).collect::<Vec<u8>>());
     let mut inputs: Vec<(&str, Bitstr)> = vec![
+        ("wide: 136-bit slice at bit 1", wide_parent.substr(1, 137).unwrap()),
+        ("wide: 21 bytes", wide_parent.substr(0, 168).unwrap()),
         ("empty", Bitstr::new()),
         ("3 bytes with NUL", Bitstr::from(vec![0x41u8, 0x00, 0xEE])),
         ("19 bits", Bitstr::from(vec![0x12u8, 0x34, 0x56]).peek(19).unwrap()),
@@ -524,6 +526,9 @@ fn make_inputs(quick: bool) -> Vec<(&'static str, Bitstr)> {
         ("5 bytes (floats)", Bitstr::from(vec![0x3f, 0x80, 0, 0, 0x40])),
     ];
     if !quick {
+        inputs.push(("wide: 150-bit slice at bit 4", wide_parent.substr(4, 154).unwrap()));
+        inputs.push(("wide: 131-bit slice at bit 7", wide_parent.substr(7, 138).unwrap()));
+        inputs.push(("wide: 160-bit slice at bit 10", wide_parent.substr(10, 170).unwrap()));
         inputs.push(("1 byte", Bitstr::from(vec![0x80u8])));
         inputs.push(("32-bit slice at bit 8", parent.substr(8, 40).unwrap()));
         inputs.push(("16-bit slice at bit 5", parent.substr(5, 21).unwrap()));
@@ -545,6 +550,7 @@ pub fn run(cfg: &Cfg) -> i32 {
         while let Some(r) = pull() {
             for ii in r {
                 let (iname, ibs) = &inputs[ii];
+                let max_nest = if iname.starts_with("wide") { 2 } else { max_nest };
                 let mut xs0 = boot();
                 let _ = xs0.set_insn_limit(Some(100_000));
                 xs0.eval(SENTINEL).unwrap();
@@ -625,7 +631,7 @@ pub fn run(cfg: &Cfg) -> i32 {
     ev.evaluations = ntrans;
     ev.nontrivial = fam.iter().filter(|(k, _)| k.ends_with(":ok")).map(|(_, v)| *v).sum();
     ev.rule = format!(
-        "BFS from {} initial inputs over every parsing word with every argument of the size/position/pattern alphabets (sizes incl. remain, remain+1, 127..129, 2^32, 2^63-1, 2^63, 2^64-1, 2^64, i128::MAX, -1, nil, 1.5), nesting <= {} inputs, keyed by the model state (input bits, consumed bits, observed storage base, byte order), to closure (or the state cap, reported); non-trivial = transitions where the word succeeded and value, offset, remain and input were checked",
+        "BFS from {} initial inputs over every parsing word with every argument of the size/position/pattern alphabets (sizes incl. remain, remain+1, 127..129, 2^32, 2^63-1, 2^63, 2^64-1, 2^64, i128::MAX, -1, nil, 1.5), nesting <= {} inputs (none for the wide inputs, which exist to reach reads of up to 128 bits at every alignment), keyed by the model state (input bits, consumed bits, observed storage base, byte order), to closure (or the state cap, reported); non-trivial = transitions where the word succeeded and value, offset, remain and input were checked",
         n_inputs, max_nest - 1
     );
     ev.add("per_input", J::A(per_input));
